@@ -18,21 +18,24 @@ Record job := mkJob { j_node : Z; j_to : Z; j_invoke : Z; j_service : Z; j_kind 
 Inductive item :=
 | IFrame (src dst : Z) (a : apdu)
 | ISubmit (no : Z) (r : reqcfg)
-| IRespond (j : job).
+| IRespond (j : job)
+| IIam (node peer maxapdu seg : Z).
 
 Record world := mkW {
   w_nodes : list node; w_now : Z; w_tctr : Z; w_dseq : Z;
   w_inflight : list item; w_delayed : list (Z * Z * item);
   w_nframes : Z; w_trace : list (list Z);        (* newest chunk first *)
-  w_reqs : list reqcfg; w_faults : list (Z * list Z); w_silence : Z; w_injs : list injcfg }.
+  w_reqs : list reqcfg; w_faults : list (Z * list Z); w_silence : Z; w_injs : list injcfg;
+  w_parked : list job }.                          (* answers the server applications have parked, oldest first *)
 
-Definition set_nodes ns w := mkW ns (w_now w) (w_tctr w) (w_dseq w) (w_inflight w) (w_delayed w) (w_nframes w) (w_trace w) (w_reqs w) (w_faults w) (w_silence w) (w_injs w).
-Definition set_now t w := mkW (w_nodes w) t (w_tctr w) (w_dseq w) (w_inflight w) (w_delayed w) (w_nframes w) (w_trace w) (w_reqs w) (w_faults w) (w_silence w) (w_injs w).
-Definition set_tctr c w := mkW (w_nodes w) (w_now w) c (w_dseq w) (w_inflight w) (w_delayed w) (w_nframes w) (w_trace w) (w_reqs w) (w_faults w) (w_silence w) (w_injs w).
-Definition set_inflight l w := mkW (w_nodes w) (w_now w) (w_tctr w) (w_dseq w) l (w_delayed w) (w_nframes w) (w_trace w) (w_reqs w) (w_faults w) (w_silence w) (w_injs w).
-Definition set_delayed d l w := mkW (w_nodes w) (w_now w) (w_tctr w) d (w_inflight w) l (w_nframes w) (w_trace w) (w_reqs w) (w_faults w) (w_silence w) (w_injs w).
-Definition set_nframes n w := mkW (w_nodes w) (w_now w) (w_tctr w) (w_dseq w) (w_inflight w) (w_delayed w) n (w_trace w) (w_reqs w) (w_faults w) (w_silence w) (w_injs w).
-Definition log (e : list Z) w := mkW (w_nodes w) (w_now w) (w_tctr w) (w_dseq w) (w_inflight w) (w_delayed w) (w_nframes w) (e :: w_trace w) (w_reqs w) (w_faults w) (w_silence w) (w_injs w).
+Definition set_nodes ns w := mkW ns (w_now w) (w_tctr w) (w_dseq w) (w_inflight w) (w_delayed w) (w_nframes w) (w_trace w) (w_reqs w) (w_faults w) (w_silence w) (w_injs w) (w_parked w).
+Definition set_now t w := mkW (w_nodes w) t (w_tctr w) (w_dseq w) (w_inflight w) (w_delayed w) (w_nframes w) (w_trace w) (w_reqs w) (w_faults w) (w_silence w) (w_injs w) (w_parked w).
+Definition set_tctr c w := mkW (w_nodes w) (w_now w) c (w_dseq w) (w_inflight w) (w_delayed w) (w_nframes w) (w_trace w) (w_reqs w) (w_faults w) (w_silence w) (w_injs w) (w_parked w).
+Definition set_inflight l w := mkW (w_nodes w) (w_now w) (w_tctr w) (w_dseq w) l (w_delayed w) (w_nframes w) (w_trace w) (w_reqs w) (w_faults w) (w_silence w) (w_injs w) (w_parked w).
+Definition set_delayed d l w := mkW (w_nodes w) (w_now w) (w_tctr w) d (w_inflight w) l (w_nframes w) (w_trace w) (w_reqs w) (w_faults w) (w_silence w) (w_injs w) (w_parked w).
+Definition set_nframes n w := mkW (w_nodes w) (w_now w) (w_tctr w) (w_dseq w) (w_inflight w) (w_delayed w) n (w_trace w) (w_reqs w) (w_faults w) (w_silence w) (w_injs w) (w_parked w).
+Definition set_parked p w := mkW (w_nodes w) (w_now w) (w_tctr w) (w_dseq w) (w_inflight w) (w_delayed w) (w_nframes w) (w_trace w) (w_reqs w) (w_faults w) (w_silence w) (w_injs w) p.
+Definition log (e : list Z) w := mkW (w_nodes w) (w_now w) (w_tctr w) (w_dseq w) (w_inflight w) (w_delayed w) (w_nframes w) (e :: w_trace w) (w_reqs w) (w_faults w) (w_silence w) (w_injs w) (w_parked w).
 
 (* payloads (harness/ssm_common.py: req_payload, resp_payload) *)
 Fixpoint zrange (from : Z) (n : nat) : list Z := match n with O => [] | S k => from :: zrange (from + 1) k end.
@@ -152,6 +155,12 @@ Definition respond (j : job) (w : world) : world :=
     end
   end.
 
+(* the application gives the answers it has parked for this node (oldest first) *)
+Fixpoint respond_all (js : list job) (w : world) : world :=
+  match js with [] => w | j :: r => respond_all r (respond j w) end.
+
+(* r_delay: 0 = answer inside the indication, > 0 = answer after that many ms, -1 = park the answer,
+   -2 = give every parked answer of this node, then answer this request, all inside this indication *)
 Definition app_indication (node peer : Z) (a : apdu) (w : world) : world :=
   let w := log (ev_app 12 (w_now w) node peer a) w in
   if negb (a_type a =? 0) then w else
@@ -161,7 +170,13 @@ Definition app_indication (node peer : Z) (a : apdu) (w : world) : world :=
     | None => (-1, 0, 0, 0)
     end in
   let j := mkJob node peer (a_invoke a) (a_service a) kind arg no in
-  if delay =? 0 then respond j w else delay_item (w_now w + delay) (IRespond j) w.
+  if delay =? 0 then respond j w
+  else if delay =? -1 then set_parked (w_parked w ++ [j]) w
+  else if delay =? -2 then
+    let mine := filter (fun x => j_node x =? node) (w_parked w) in
+    let rest := filter (fun x => negb (j_node x =? node)) (w_parked w) in
+    respond j (respond_all mine (set_parked rest w))
+  else delay_item (w_now w + delay) (IRespond j) w.
 
 Fixpoint process_outs (client : bool) (node peer : Z) (outs : list out) (w : world) : world :=
   match outs with
@@ -270,11 +285,34 @@ Definition fire (addr : Z) (client : bool) (i : nat) (w : world) : world :=
     end
   end.
 
+(* DeviceInfoCache.iam_device_info (app.py:97-134): the record of `peer` at `node` takes the announced max-APDU and
+   segmentation (a new record has neither max-segments nor max-NPDU).  Transactions hold a reference to the record, not a
+   copy: every transaction of that node with that peer that was created when a record existed sees the new values *)
+Definition set_dinfo_f v s := mkSsm (s_peer s) (s_invoke s) (s_state s) (s_ctx s) (s_segsize s) (s_segcount s) (s_retry s) (s_segretry s) (s_sentall s) (s_lastseq s) (s_initseq s) (s_actwin s) (s_retries s) (s_apdu_to s) (s_seg_to s) (s_segsupp s) (s_maxsegs s) (s_maxapdu s) (s_sra s) (s_timer s) v (s_propwin s) (s_app_to s).
+Fixpoint set_assoc {A} (k : Z) (v : A) (l : list (Z * A)) : list (Z * A) :=
+  match l with [] => [(k, v)] | (k', v') :: r => if k =? k' then (k, v) :: r else (k', v') :: set_assoc k v r end.
+Definition iam_update (addr peer ma sg : Z) (w : world) : world :=
+  match get_node addr (w_nodes w) with
+  | None => w
+  | Some n =>
+    if c_raw (n_cfg n) then w else
+    let c := n_cfg n in
+    let d := match assoc peer (c_know c) with
+             | Some old => mkDinfo (Some ma) sg (d_maxsegs old) (d_maxnpdu old)
+             | None => mkDinfo (Some ma) sg None None end in
+    let c' := mkNode (c_addr c) (c_maxapdu c) (c_seg c) (c_maxsegs c) (c_retries c) (c_apdu_to c) (c_seg_to c) (c_window c)
+                     (c_app_to c) (c_raw c) (set_assoc peer d (c_know c)) in
+    let alias := fun t => if (s_peer t =? peer) && match s_dinfo t with Some _ => true | None => false end
+                          then set_dinfo_f (Some d) t else t in
+    set_nodes (put_node (mkN c' (n_next n) (map alias (n_ctr n)) (map alias (n_str n))) (w_nodes w)) w
+  end.
+
 Definition do_item (it : item) (w : world) : world :=
   match it with
   | IFrame src dst a => deliver src dst a w
   | ISubmit no r => submit no r w
   | IRespond j => respond j w
+  | IIam node peer ma sg => iam_update node peer ma sg w
   end.
 
 (* one iteration of World.run; None = quiescent *)
@@ -313,7 +351,11 @@ Definition init_injects (w : world) : world :=
 
 Definition init_world (nodes : list nodecfg) (reqs : list reqcfg) (faults : list (Z * list Z)) (silence : Z) (injs : list injcfg) : world :=
   init_injects (init_submits 0 reqs
-    (mkW (map (fun c => mkN c 1 [] []) nodes) 0 0 0 [] [] 0 [] reqs faults silence injs)).
+    (mkW (map (fun c => mkN c 1 [] []) nodes) 0 0 0 [] [] 0 [] reqs faults silence injs [])).
+
+Record iamcfg := mkIam { ia_t : Z; ia_node : Z; ia_peer : Z; ia_maxapdu : Z; ia_seg : Z }.
+Definition init_iams (iams : list iamcfg) (w : world) : world :=
+  fold_left (fun w i => delay_item (ia_t i) (IIam (ia_node i) (ia_peer i) (ia_maxapdu i) (ia_seg i)) w) iams w.
 
 Definition MAX_STEPS : nat := 6000.
 
@@ -323,5 +365,12 @@ Definition run_chunks (nodes : list nodecfg) (reqs : list reqcfg) (faults : list
 
 Definition run_spec (nodes : list nodecfg) (reqs : list reqcfg) (faults : list (Z * list Z)) (silence : Z) (injs : list injcfg) : list Z :=
   let '(w, live) := run MAX_STEPS (init_world nodes reqs faults silence injs) in
+  let snap := snapshot_of w in
+  concat (rev (w_trace w)) ++ [16; w_now w; (if live then 1 else 0); zlen snap] ++ concat snap.
+
+(* the same with I-Am PDUs reaching the applications at given instants *)
+Definition run_spec_x (nodes : list nodecfg) (reqs : list reqcfg) (faults : list (Z * list Z)) (silence : Z) (injs : list injcfg)
+                      (iams : list iamcfg) : list Z :=
+  let '(w, live) := run MAX_STEPS (init_iams iams (init_world nodes reqs faults silence injs)) in
   let snap := snapshot_of w in
   concat (rev (w_trace w)) ++ [16; w_now w; (if live then 1 else 0); zlen snap] ++ concat snap.
